@@ -25,6 +25,7 @@ package ipfix
 import (
 	"bytes"
 	"encoding/hex"
+	"encoding/json"
 	"errors"
 	"net"
 	"strconv"
@@ -184,9 +185,12 @@ func (m *Message) writeValue(b *bytes.Buffer, i, j int) error {
 	case float64:
 		b.WriteString(strconv.FormatFloat(m.DataSets[i][j].Value.(float64), 'E', -1, 64))
 	case string:
-		b.WriteByte('"')
-		b.WriteString(m.DataSets[i][j].Value.(string))
-		b.WriteByte('"')
+		// escapes quotes, backslashes and control characters; invalid UTF-8 becomes U+FFFD
+		s, err := json.Marshal(m.DataSets[i][j].Value.(string))
+		if err != nil {
+			return err
+		}
+		b.Write(s)
 	case net.IP:
 		b.WriteByte('"')
 		b.WriteString(m.DataSets[i][j].Value.(net.IP).String())
